@@ -252,6 +252,10 @@ type Conn struct {
 	WriteErrAfter int64
 	ReadErrAfter  int64
 	InjectedErr   error
+	// ZeroFirstRead: the first non-empty Read returns (0, nil) before any data (legal for an
+	// io.Reader; wrappers such as TLS or buffered connections do it)
+	ZeroFirstRead bool
+	zeroDone      bool
 	Received      []byte // everything Read returned on this end
 	Written       []byte // everything Write accepted on this end
 	Closes        int
@@ -274,6 +278,10 @@ func (c *Conn) Read(b []byte) (int, error) {
 	c.w.lock()
 	defer c.w.unlock()
 	if len(b) == 0 {
+		return 0, nil
+	}
+	if c.ZeroFirstRead && !c.zeroDone {
+		c.zeroDone = true
 		return 0, nil
 	}
 	c.w.wait("net", c.Name+".Read", func() bool {
